@@ -9,13 +9,20 @@ lines; once fixed in FEAT the cases simply pass):
      for a default-constructed SparseMatrixBanded): ABORT "Vector x and r must not share the same memory!" - the aliasing
      assertion r.elements() != x.elements() compares two null pointers before any early-out.  Expected: returns the
      empty vector, like CSR/CSCR/BCSR (`csr 64 apply 0 0 1 0 0 0 1/1 0 0 0` -> `R 0 U1`).
- F2  `bcsr 64 2 3 4 axpy 0 0 1 0 0 0 0/1 0 0 0`  (mixed overload r,x blocked / y scalar, empty y, i.e. rows()==0 resp.
-     columns()==0 for the transposed form): uncaught std::out_of_range from `r.convert(y)` in the early-out
-     (DenseVectorBlocked::convert does other.get_elements().at(0)).  Expected: returns with empty r.
+ F2  `bcsr 64 2 3 4 axpy 0 0 1 0 0 0 0/1 0 0 0`  (mixed overload r,x blocked / y scalar, empty y): threw std::out_of_range
+     from `r.convert(y)`.  FIXED in /repo by 8f02f23f1 ("convert: an empty source vector owns no array"); the four
+     known-edge cases now pass and the generator no longer avoids the input class.
  F3  (observation, not judged: the operands are unmodified when the call returns, which is all the property text
      claims; the damage needs a *later* write through r) the same overload's early-out leaves r a *shallow alias* of y
      (`bcsr 64 2 2 4 axpy 1 1 2 0 1 1 0 4 1/1 1/1 1/1 1/1 0/1 2 1/1 1/1 2 5/1 5/1 0`: values correct, but
      r.elements<pod>() == y.elements() afterwards, a later r.scale(r,2) turns y into 10 10).
+ F4  TupleMatrix transposed products do not compile: `TupleMatrix<FirstRow_>::apply_transposed(r, x, y, alpha)`
+     (tuple_matrix.hpp:1330) calls `first().apply(r, x.first(), y, alpha)` instead of `first().apply_transposed(...)`;
+     the 2-argument apply_transposed of a TupleMatrix with >= 2 rows needs that member for its last row. The harness can
+     only report NOT-OFFERED for these members (judged in known-edge, signature c01-edge:F4).
+ F5  (compile-time, not executable) `SaddlePointMatrix::apply_transposed(DenseVector& r, const DenseVector& x)` calls
+     `block_b().applytransposed(r_rest, x_first)` (saddle_point_matrix.hpp:501, missing underscore): any use of this
+     overload fails to compile. The Tuple/PowerVector overloads exercised here are fine.
 """
 import json
 import os
@@ -151,6 +158,8 @@ def pick_op(rng, transposed_ok=True, dense_ok=True):
 
 
 def gen_case(rng, sizes):
+    if max(sizes) <= 13 and rng.random() < 0.18:
+        return gen_meta_case(rng)
     it = rng.choice([32, 64])
     k = rng.random()
     if k < 0.26:
@@ -205,8 +214,6 @@ def gen_case(rng, sizes):
         tr = op.endswith("T")
         nr, nx = (cols * bw, rows * bh) if tr else (rows * bh, cols * bw)
         vk = rng.randrange(5 if op.startswith("axpy") else 4)
-        if vk == 4 and nr == 0:
-            vk = 3   # FINDINGS_C01.md F2: r.convert(y) throws std::out_of_range for an empty y
         if op == "dense":
             vk = 0
         t = tail(rng, nx, nr, op.startswith("axpy")) if op != "dense" else "0/1 0 0 0"
@@ -221,7 +228,7 @@ def gen_case(rng, sizes):
             cols = 1
         maxoff = rows + cols - 2
         alloff = list(range(maxoff + 1))
-        style = rng.choice(["single", "all", "sub", "super", "rand", "rand", "extreme", "tridiag"])
+        style = rng.choice(["single", "all", "sub", "super", "rand", "rand", "extreme", "tridiag", "none"])
         if style == "single":
             off = [rng.choice(alloff)]
         elif style == "all":
@@ -236,7 +243,7 @@ def gen_case(rng, sizes):
             off = [o for o in (rows - 2, rows - 1, rows) if 0 <= o <= maxoff]
         else:
             off = [o for o in alloff if rng.random() < 0.4]
-        if not off:
+        if not off and style != "none":
             off = [rng.choice(alloff)]
         op = pick_op(rng)
         if op.endswith("T") and rng.random() < 0.7:
@@ -254,6 +261,122 @@ def gen_case(rng, sizes):
     nr, nx = (cols, rows) if tr else (rows, cols)
     t = tail(rng, nx, nr, op.startswith("axpy")) if op != "dense" else "0/1 0 0 0"
     return "dense %s %d %d %s %s" % (op, rows, cols, fl(val), t)
+
+
+# ----- meta-matrices: the catalogue of C++ types of harness/c01/meta.cpp and their tree shapes
+_C, _DN = "csr", "dense"
+
+
+def _b(bh, bw):
+    return ("bcsr", bh, bw)
+
+
+META_TYPES = {
+    "prow3_csr": ("R", _C, ("R", _C, _C)),
+    "pcol3_csr": ("C", _C, ("C", _C, _C)),
+    "pdiag2_csr": ("D", _C, _C),
+    "pdiag2_bcsr23": ("D", _b(2, 3), _b(2, 3)),
+    "pfull_w3h2_csr": ("C", ("R", _C, ("R", _C, _C)), ("R", _C, ("R", _C, _C))),
+    "pfull22_bcsr22": ("C", ("R", _b(2, 2), _b(2, 2)), ("R", _b(2, 2), _b(2, 2))),
+    "saddle_csr": ("S", _C, _C, _C),
+    "saddle_stokes": ("S", ("D", _C, _C), ("C", _C, _C), ("R", _C, _C)),
+    "saddle_bcsr": ("S", _b(2, 2), _b(2, 1), _b(1, 2)),
+    "tuple22_csr_dense": ("C", ("R", _C, _DN), ("R", _DN, _C)),
+    "tuple22_bcsr": ("C", ("R", _b(2, 2), _b(2, 3)), ("R", _b(3, 2), _b(3, 3))),
+    "tuple12_saddle": ("R", ("S", _C, _C, _C), ("S", _C, _C, _C)),
+    "pdiag2_pfull22": ("D", ("C", ("R", _C, _C), ("R", _C, _C)), ("C", ("R", _C, _C), ("R", _C, _C))),
+}
+META_NO_APPLYT = {"tuple22_csr_dense", "tuple22_bcsr"}          # F4: does not compile
+META_NO_AXPYT = META_NO_APPLYT | {"tuple12_saddle"}
+
+
+def _unit(shape, axis):
+    """granularity of the pod row (axis 0) / column (axis 1) count of a subtree (block sizes of its BCSR leaves)"""
+    from math import gcd
+    if shape == "csr" or shape == "dense":
+        return 1
+    if shape[0] == "bcsr":
+        return shape[1 + axis]
+    u = 1
+    for sub in shape[1:]:
+        v = _unit(sub, axis)
+        u = u * v // gcd(u, v)
+    return u
+
+
+def _tot(prof):
+    return prof if isinstance(prof, int) else _tot(prof[1]) + _tot(prof[2])
+
+
+def _parts(rng, prof, shape, axis):
+    """constraint profiles for the two children of a node that splits `axis`; a profile is an int (only the total is
+    prescribed) or ("+", p1, p2) (the partition of a sibling block is prescribed)"""
+    if prof is None:
+        return None, None
+    if isinstance(prof, int):
+        g = _unit(shape, axis)
+        a = g * rng.randint(0, prof // g)
+        return a, prof - a
+    return prof[1], prof[2]
+
+
+def gen_tree(rng, shape, rows, cols, dims):
+    """tokens of the tree and its pod row / column profiles; rows/cols = None means free"""
+    if shape == "csr" or shape == "dense" or shape[0] == "bcsr":
+        bh, bw = (shape[1], shape[2]) if shape[0] == "bcsr" else (1, 1)
+        lo = 1 if shape == "dense" else 0
+        rows = max(lo, rng.choice(dims)) * bh if rows is None else _tot(rows)
+        cols = max(lo, rng.choice(dims)) * bw if cols is None else _tot(cols)
+        assert rows % bh == 0 and cols % bw == 0
+        br, bc = rows // bh, cols // bw
+        if shape == "dense":
+            return ["dense", str(br), str(bc), fl([rval(rng) for _ in range(br * bc)])], rows, cols
+        pat, _ = gen_pattern(rng, br, bc)
+        rp, ci = csr_arrays(pat)
+        val = [rval(rng, nonzero=rng.random() < 0.8) for _ in range(len(ci) * bh * bw)]
+        head = ["csr"] if shape == "csr" else ["bcsr", str(bh), str(bw)]
+        return head + [str(br), str(bc), nl(rp), nl(ci), fl(val)], rows, cols
+    k = shape[0]
+    if k == "R":
+        c1, c2 = _parts(rng, cols, shape, 1)
+        t1, r1, c1 = gen_tree(rng, shape[1], rows, c1, dims)
+        t2, _, c2 = gen_tree(rng, shape[2], r1, c2, dims)
+        return ["R"] + t1 + t2, r1, ("+", c1, c2)
+    if k == "C":
+        r1, r2 = _parts(rng, rows, shape, 0)
+        t1, r1, c1 = gen_tree(rng, shape[1], r1, cols, dims)
+        t2, r2, _ = gen_tree(rng, shape[2], r2, c1, dims)
+        return ["C"] + t1 + t2, ("+", r1, r2), c1
+    if k == "D":
+        r1, r2 = _parts(rng, rows, shape, 0)
+        c1, c2 = _parts(rng, cols, shape, 1)
+        t1, r1, c1 = gen_tree(rng, shape[1], r1, c1, dims)
+        t2, r2, c2 = gen_tree(rng, shape[2], r2, c2, dims)
+        return ["D"] + t1 + t2, ("+", r1, r2), ("+", c1, c2)
+    assert k == "S"
+    ra, rd = _parts(rng, rows, shape, 0)
+    ca, cb = _parts(rng, cols, shape, 1)
+    ta, ra, ca = gen_tree(rng, shape[1], ra, ca, dims)
+    tb, _, cb = gen_tree(rng, shape[2], ra, cb, dims)
+    td, rd, _ = gen_tree(rng, shape[3], rd, ca, dims)
+    return ["S"] + ta + tb + td, ("+", ra, rd), ("+", ca, cb)
+
+
+def gen_meta_case(rng, dims=(0, 1, 1, 2, 2, 3, 4)):
+    ty = rng.choice(sorted(META_TYPES))
+    ops = ["apply", "axpy", "axpy"]
+    if ty not in META_NO_APPLYT:
+        ops.append("applyT")
+    if ty not in META_NO_AXPYT:
+        ops += ["axpyT", "axpyT"]
+    op = rng.choice(ops)
+    if "dense" in ty:      # a DenseMatrix with a zero dimension cannot be constructed
+        dims = tuple(d for d in dims if d > 0)
+    toks, rows, cols = gen_tree(rng, META_TYPES[ty], None, None, dims)
+    rows, cols = _tot(rows), _tot(cols)
+    tr = op.endswith("T")
+    nr, nx = (cols, rows) if tr else (rows, cols)
+    return "meta %s %s %s %s" % (ty, op, " ".join(toks), tail(rng, nx, nr, op.startswith("axpy")))
 
 
 def gen_cases(rng, count, sizes):
@@ -325,6 +448,9 @@ class Case:
     def __init__(self, line):
         c = Tk(line)
         self.fmt = c.tok()
+        if self.fmt == "meta":
+            self._init_meta(c)
+            return
         self.it = c.nat() if self.fmt != "dense" else 0
         self.bs = c.nat() if self.fmt == "csrsb" else 1
         self.bh = self.bw = 1
@@ -336,10 +462,13 @@ class Case:
         self.flags = set()
         m = {}
 
+        self.mabs = {}      # sum of |stored value| per position (differs from |m| only for duplicate entries)
+
         def add(i, j, v):
             if (i, j) in m:
                 self.flags.add("dups")
             m[(i, j)] = m.get((i, j), Fraction(0)) + v
+            self.mabs[(i, j)] = self.mabs.get((i, j), Fraction(0)) + abs(v)
 
         self.nnz = 0
         if self.fmt in ("csr", "csrsb", "cscr", "bcsr"):
@@ -386,6 +515,75 @@ class Case:
         self.tr = self.op.endswith("T")
         self.axpy = self.op.startswith("axpy")
 
+    def _init_meta(self, c):
+        """meta <cppType> OP <tree> alpha x y alias: the block matrix of the leaves (independent of the Lean model)"""
+        self.ty = c.tok()
+        self.op = c.tok()
+        self.it, self.bs, self.bh, self.bw, self.vk = 64, 1, 1, 1, 0
+        self.flags = set()
+        self.leaves = 0
+        self.depth = 0
+
+        def tree(depth):
+            """returns (rows, cols, entries dict)"""
+            self.depth = max(self.depth, depth)
+            t = c.tok()
+            if t in ("R", "C", "D"):
+                r1, c1, m1 = tree(depth + 1)
+                r2, c2, m2 = tree(depth + 1)
+                if t == "R":
+                    assert r1 == r2, "row blocks with different row counts"
+                    m1.update({(i, j + c1): v for (i, j), v in m2.items()})
+                    return r1, c1 + c2, m1
+                if t == "C":
+                    assert c1 == c2, "column blocks with different column counts"
+                    m1.update({(i + r1, j): v for (i, j), v in m2.items()})
+                    return r1 + r2, c1, m1
+                m1.update({(i + r1, j + c1): v for (i, j), v in m2.items()})
+                return r1 + r2, c1 + c2, m1
+            if t == "S":
+                ra, ca, ma = tree(depth + 1)
+                rb, cb, mb = tree(depth + 1)
+                rd, cd, md = tree(depth + 1)
+                assert ra == rb and ca == cd, "saddle point blocks do not fit"
+                ma.update({(i, j + ca): v for (i, j), v in mb.items()})
+                ma.update({(i + ra, j): v for (i, j), v in md.items()})
+                return ra + rd, ca + cb, ma
+            self.leaves += 1
+            m = {}
+            if t == "dense":
+                rows, cols = c.nat(), c.nat()
+                val = c.fracs()
+                for i in range(rows):
+                    for j in range(cols):
+                        m[(i, j)] = val[i * cols + j]
+                return rows, cols, m
+            bh = bw = 1
+            if t == "bcsr":
+                bh, bw = c.nat(), c.nat()
+                self.bh, self.bw = max(self.bh, bh), max(self.bw, bw)
+            elif t != "csr":
+                raise ValueError("tree token " + t)
+            rows, cols = c.nat(), c.nat()
+            rp, ci, val = c.nats(), c.nats(), c.fracs()
+            for row in range(rows):
+                for k in range(rp[row], rp[row + 1]):
+                    for h in range(bh):
+                        for w in range(bw):
+                            key = (row * bh + h, ci[k] * bw + w)
+                            m[key] = m.get(key, Fraction(0)) + val[k * bh * bw + h * bw + w]
+            return rows * bh, cols * bw, m
+
+        self.prow, self.pcol, self.m = tree(0)
+        self.rows, self.cols = self.prow, self.pcol
+        self.nnz = len(self.m)
+        self.empty_rows = self.prow - len({i for (i, j) in self.m})
+        self.alpha = c.frac()
+        self.x, self.y = c.fracs(), c.fracs()
+        self.alias = c.nat()
+        self.tr = self.op.endswith("T")
+        self.axpy = self.op.startswith("axpy")
+
     def product(self):
         """(A x or A^T x, |A||x|) with blocked-vector semantics for csrsb (scalar entry times block)"""
         nr = (self.pcol if self.tr else self.prow) * self.bs
@@ -424,6 +622,8 @@ def oracle(case, out):
             return None
         if c.fmt == "banded" and c.tr and out == "ABORT:not-offered":
             return None     # the banded format does not offer the transposed product ("not implemented")
+        if out == "NOT-OFFERED":
+            return "%s declares %s but the member does not compile (TupleMatrix transposed products)" % (c.ty, c.op)
         if is_abnormal(out):
             return "%s %s on a valid input ended with %s" % (c.fmt, c.op, out)
         o = Tk(out)
@@ -446,6 +646,64 @@ def oracle(case, out):
             return "r[%d] = %s, exact %s%s" % (i, r[i], exact, " (outside the rounding envelope)" if small else "")
         if flag != "U1":
             return "an input operand (x, y or a matrix array) was modified"
+        return None
+    except (IndexError, ValueError, AssertionError, ZeroDivisionError) as e:
+        return "unparsable implementation output (%s): %s" % (e, out[:200])
+
+
+U53 = Fraction(1, 2 ** 53)
+
+
+def f64_supported(case):
+    t = case.split()
+    if t[0] in ("csr", "cscr", "banded"):
+        return t[2] != "dense"
+    if t[0] == "dense":
+        return t[1] != "dense"
+    if t[0] == "bcsr":
+        return (int(t[2]), int(t[3])) in ((1, 1), (2, 2), (2, 3), (3, 2)) and t[5] != "dense"
+    return False
+
+
+def oracle_f64(case, out):
+    """T3-lite: the same operation at double with r pre-filled with NaN; judged against the exact product under the
+    a-priori bound 4 (n_i + 8) u (|alpha| (|A||x|)_i + |y_i|)  (n_i = stored entries of row/column i)"""
+    try:
+        c = Case(case[4:])
+    except Exception as e:
+        return "unparsable case (%s)" % e
+    try:
+        if c.fmt == "banded" and c.tr and out.startswith("ABORT"):
+            return None
+        if is_abnormal(out):
+            return "%s %s at double ended with %s" % (c.fmt, c.op, out)
+        t = out.split()
+        if t[0] != "F" or int(t[1]) != len(t) - 2:
+            return "unparsable output"
+        p, pa = c.product()
+        # rounding bound with the stored entries' magnitudes (duplicates do not cancel in floating point)
+        pa = [Fraction(0)] * len(p)
+        for (i, j), v in c.mabs.items():
+            if c.tr:
+                i, j = j, i
+            pa[i] += v * abs(c.x[j])
+        if len(p) != len(t) - 2:
+            return "result has %d entries, expected %d" % (len(t) - 2, len(p))
+        cnt = [0] * len(p)
+        for (i, j) in c.m:
+            cnt[j if c.tr else i] += 2 if "dups" in c.flags else 1
+        a = c.alpha if c.axpy else Fraction(1)
+        for i in range(len(p)):
+            if t[2 + i] in ("nan", "inf", "-inf", "-nan"):
+                return "r[%d] = %s: stale (NaN pre-filled) data of r leaked into the result" % (i, t[2 + i])
+            v = Fraction(float.fromhex(t[2 + i]))
+            yi = c.y[i] if c.axpy else Fraction(0)
+            exact = yi + a * p[i]
+            bound = 4 * (cnt[i] + 8) * U53 * (abs(a) * pa[i] + abs(yi))
+            if c.axpy and abs(a) < EPS:
+                bound += EPS * (pa[i] + abs(yi))
+            if abs(v - exact) > bound:
+                return "r[%d] = %s, exact %s, bound %s" % (i, float(v), float(exact), float(bound))
         return None
     except (IndexError, ValueError, AssertionError, ZeroDivisionError) as e:
         return "unparsable implementation output (%s): %s" % (e, out[:200])
@@ -487,7 +745,10 @@ def describe(case):
     except Exception:
         return ["unparsable"]
     keys = ["fmt:" + c.fmt, "op:%s/%s" % (c.fmt, c.op)]
-    if c.fmt != "dense":
+    if c.fmt == "meta":
+        keys.append("meta-type:" + c.ty)
+        keys.append("meta-depth:%d" % c.depth)
+    if c.fmt not in ("dense", "meta"):
         keys.append("it:%d" % c.it)
     if c.fmt == "bcsr":
         keys.append("block:%dx%d" % (c.bh, c.bw))
@@ -530,6 +791,15 @@ EDGE["bcsr 32 2 2 4 axpy 0 2 1 0 0 0 3/1 4 1/1 1/1 1/1 1/1 0 0"] = "c01-edge:F2"
 EDGE["bcsr 32 3 2 4 axpyT 2 0 3 0 0 0 0 0 3/1 6 1/1 1/1 1/1 1/1 1/1 1/1 0 0"] = "c01-edge:F2"
 
 
+EDGE["meta tuple22_csr_dense applyT C R csr 1 1 2 0 1 1 0 1 2/1 dense 1 1 1 3/1 R dense 1 1 1 4/1 csr 1 1 2 0 1 1 0 1 5/1 "
+     "1/1 2 1/1 1/1 0 0"] = "c01-edge:F4"
+EDGE["meta tuple22_csr_dense axpyT C R csr 1 1 2 0 1 1 0 1 2/1 dense 1 1 1 3/1 R dense 1 1 1 4/1 csr 1 1 2 0 1 1 0 1 5/1 "
+     "2/1 2 1/1 1/1 2 1/1 1/1 0"] = "c01-edge:F4"
+EDGE["meta tuple12_saddle axpyT R S csr 1 1 2 0 1 1 0 1 2/1 csr 1 1 2 0 1 1 0 1 3/1 csr 1 1 2 0 1 1 0 1 4/1 "
+     "S csr 1 1 2 0 1 1 0 1 5/1 csr 1 1 2 0 1 1 0 1 6/1 csr 1 1 2 0 1 1 0 1 7/1 "
+     "2/1 2 1/1 1/1 4 1/1 1/1 1/1 1/1 0"] = "c01-edge:F4"
+
+
 def edge_signature(case, out, why):
     return EDGE.get(case, "c01-edge:?")
 
@@ -537,7 +807,7 @@ def edge_signature(case, out, why):
 def edge_model_filter(case):
     # the Lean model reproduces F1 (Dense.apply / Banded.apply return none for two empty vectors);
     # it does not model the std::out_of_range of F2
-    return EDGE.get(case) == "c01-edge:F1"
+    return EDGE.get(case) in ("c01-edge:F1", "c01-edge:F4")
 
 
 def signature(case, out, why):
@@ -550,7 +820,9 @@ def main(argv):
     t0 = time.time()
     rng = random.Random(args.seed * 1000003 + 1)
     lean = None if args.no_lean else vlib.lean_check(PROP, leanchecker=(args.tier == "thorough"))
-    binary, err = vlib.build_harness("c01", os.path.join(vlib.VERIF, "harness", "c01", "main.cpp"))
+    binary, err = vlib.build_harness("c01", os.path.join(vlib.VERIF, "harness", "c01", "main.cpp"),
+                                      extra_srcs=[os.path.join(vlib.VERIF, "harness", "c01", "meta.cpp"),
+                                                  os.path.join(vlib.VERIF, "harness", "c01", "f64.cpp")])
     if binary is None:
         v = [{"property": PROP, "kind": "harness-build-failure", "detail": err, "failing_input": None,
               "broken": "harness c01 does not compile against the current tree"}]
@@ -572,15 +844,21 @@ def main(argv):
                           model_filter=edge_model_filter)
     st = vlib.Stream("apply", cases, [binary], vlib.driver_cmd(PROP), oracle=oracle, nontrivial=nontrivial,
                      describe=describe, signature=signature, canon=canon)
-    stats_rule = ("CSR (scalar and blocked vectors), CSCR, BCSR (6 block shapes x 5 vector-kind overloads), banded "
+    f64_cases = ["f64 " + c for c in cases if f64_supported(c)][: (2500 if args.tier == "quick" else 40000)]
+    st_f64 = vlib.Stream("f64-nan-prefill", f64_cases, [binary], None, oracle=oracle_f64,
+                         describe=lambda c: describe(c[4:]), signature=signature)
+    stats_rule = ("meta-matrices (13 C++ types of depth <= 3: PowerRow/Col/Diag/Full, TupleMatrix, SaddlePoint over CSR / BCSR / "
+                  "dense leaves with Tuple/PowerVector operands); f64-nan-prefill: leaf formats at double, r pre-filled with "
+                  "NaN, a-priori rounding bound; "
+                  "CSR (scalar and blocked vectors), CSCR, BCSR (6 block shapes x 5 vector-kind overloads), banded "
                   "(arbitrary offset sets, rectangular, garbage in the padding entries), dense; apply / axpy and their "
                   "transposed forms, 32/64-bit indices, r aliasing y, alpha in {0, +-1, below eps, eps, general}; "
                   "non-trivial = at least one stored entry and one of {empty row, rectangular, alpha not in {0,1}, "
                   "r aliases y, transposed, block > 1}")
-    rc = vlib.run_pipeline(PROP, args.tier, args.seed, lean, [st, st_edge], t0, assumptions=[
+    rc = vlib.run_pipeline(PROP, args.tier, args.seed, lean, [st, st_edge, st_f64], t0, assumptions=[
         "Index modelled as unbounded Nat (no 32/64-bit overflow at the sizes generated)",
-        "exact rational arithmetic at Q: the rounding clause of the property is exercised only through the "
-        "|alpha| < eps early-out (float conformance T3 not run)",
+        "exact rational arithmetic at Q in the main stream; stream f64-nan-prefill re-runs the leaf formats at double with "
+        "NaN-pre-filled r under an a-priori rounding bound (float32, meta-matrices and blocked vectors not re-run)",
         "DenseMatrix / SparseMatrixBanded 0x0 and the BCSR mixed overload with an empty y are not generated randomly; "
         "their exact failing inputs are executed and judged in stream known-edge (KNOWN_FINDINGS c01-edge:F1/F2)"],
         extra_cov={"rule": stats_rule})
